@@ -62,3 +62,57 @@ impl Dyn {
         Ok(e)
     }
 }
+
+/// publication-widening agreement: seeded positive / negative
+pub trait Px {
+    fn eval(&self) -> bool;
+}
+pub struct Lit(pub bool);
+impl Px for Lit {
+    fn eval(&self) -> bool {
+        self.0
+    }
+}
+pub struct Filt {
+    pub cur: std::sync::Mutex<Arc<dyn Px>>,
+}
+impl Filt {
+    #[inline(never)]
+    pub fn update(&self, e: Arc<dyn Px>) -> Result<(), String> {
+        *self.cur.lock().unwrap() = e;
+        Ok(())
+    }
+}
+pub struct GoodPub {
+    pub filt: Filt,
+    pub null_aware: bool,
+}
+pub struct BadPub {
+    pub filt: Filt,
+    pub null_aware: bool,
+}
+impl GoodPub {
+    fn preserve(&self, e: Arc<dyn Px>) -> Result<Arc<dyn Px>, String> {
+        if self.null_aware { Ok(Arc::new(Lit(true))) } else { Ok(e) }
+    }
+    pub fn publish_all(&self, shape: u8) -> Result<(), String> {
+        let e: Arc<dyn Px> = if shape == 0 { Arc::new(Lit(true)) } else { Arc::new(Lit(false)) };
+        self.filt.update(self.preserve(e)?)
+    }
+    pub fn publish_single(&self) -> Result<(), String> {
+        self.filt.update(self.preserve(Arc::new(Lit(false)))?)
+    }
+}
+impl BadPub {
+    fn preserve(&self, e: Arc<dyn Px>) -> Result<Arc<dyn Px>, String> {
+        if self.null_aware { Ok(Arc::new(Lit(true))) } else { Ok(e) }
+    }
+    /// seeded: only one shape is widened
+    pub fn publish_all(&self, shape: u8) -> Result<(), String> {
+        let e: Arc<dyn Px> = if shape == 0 { Arc::new(Lit(true)) } else { self.preserve(Arc::new(Lit(false)))? };
+        self.filt.update(e)
+    }
+    pub fn publish_single(&self) -> Result<(), String> {
+        self.filt.update(self.preserve(Arc::new(Lit(false)))?)
+    }
+}
